@@ -202,6 +202,11 @@ def M():
         ('sheet.insertRule(second prefix for a declared URI, then refused)', two_namespaces,
          lambda t, a: t.insertRule(css.CSSNamespaceRule(namespaceURI='http://b.example', prefix='p'), 1), [(None, True)]),
         ('importRule.href= (target does not parse, raising mode)', lambda s: first(s, R.IMPORT_RULE), setter('href'), [('broken.css', True)]),
+        ('importRule.cssText= (target does not parse, raising mode)', lambda s: first(s, R.IMPORT_RULE), setter('cssText'),
+         [('@import url(broken.css) tv "new";', True), ('@import "broken.css";', True)]),
+        ('sheet.insertRule(import object whose target does not parse)', lambda s: s, lambda t, a: t.insertRule(css.CSSImportRule(href=a), 0 if first(t, R.CHARSET_RULE) is None else 1),
+         [('broken.css', True)]),
+        ('sheet.add(import object whose target does not parse)', lambda s: s, lambda t, a: t.add(css.CSSImportRule(href=a, mediaText='tv')), [('broken.css', True)]),
     ]
 
 
@@ -389,6 +394,7 @@ RO = [
     ('CSSMediaRule.media', lambda: css.CSSMediaRule(mediaText='print', readonly=True), [('media', 'tv')]),
     ('CSSVariablesDeclaration', lambda: css.CSSVariablesDeclaration(cssText='a: 1', readonly=True),
      [('cssText', 'b: 2'), ('setVariable', ('b', '2')), ('removeVariable', 'a'), ('__delitem__', 'a'), ('__setitem__', ('a', '2'))]),
+    ('URIValue', lambda: css.URIValue('url(a.png)', readonly=True), [('uri', 'b.png'), ('cssText', 'url(c.png)'), ('value', 'd.png')]),
 ]
 
 
@@ -448,3 +454,8 @@ SUBS = [
     Sub('edited', check_table, strategy=table_strategy, quick=1500, thorough=80000, shards_quick=8, budget_quick=90),
     Sub('readonly', check_ro, enumerate=ro_cases, shards_quick=2, shards_thorough=2),
 ]
+
+
+from vlib.reported import reported_sub  # noqa: E402
+
+SUBS.append(reported_sub('C11'))
